@@ -44,6 +44,7 @@ StepOK(p, e, pos) ==
                    /\ ~(e.f = "variables") /\ ~(KindAt(p) = "callback")
                    /\ ~(KindAt(p) \in {"parameter", "header"} /\ e.f = "content")   \* exactly one entry allowed
                    /\ CountSteps(p, IsPos2) < MaxPos2
+   /\ (pos = 3) => KindAt(p) = "schema" /\ e.f \in {"items", "properties", "additionalProperties"}
    /\ (KindAt(p) = "schema" /\ e.kind = "schema") => CountSteps(p, IsNest) < MaxNest
    /\ (\E i \in DOMAIN p : IsShallowOp(p[i])) => Len(p) - FirstIdx(p, IsShallowOp) < ShallowBelow
    /\ (\E i \in DOMAIN p : IsCb(p[i])) => /\ Len(p) - FirstIdx(p, IsCb) < CbBelow
@@ -53,7 +54,7 @@ StepOK(p, e, pos) ==
    /\ (e.f = "encoding") => \E i \in DOMAIN p : p[i].kind = "requestBody"
 
 Grow == /\ leaf = Open
-        /\ \E e \in Edges(KindAt(path)), pos \in {1, 2} :
+        /\ \E e \in Edges(KindAt(path)), pos \in {1, 2, 3} :
               /\ StepOK(path, e, pos)
               /\ path' = Append(path, Step(KindAt(path), e, pos))
         /\ UNCHANGED leaf
